@@ -48,8 +48,12 @@ Definition invalid_chan : chan := mkChan KInvalid false [] 0 false false false 0
 Inductive status := Active | Removed | Rejected.
 Record reg := mkReg { r_sig : Z; r_ch : nat; r_method : method; r_status : status }.
 
+(** what register_raw's match sees: 0 | -1 with EAGAIN | anything else *)
+Inductive pres := PRZero | PRWouldBlock | PROther.
+
 Inductive event :=
 | EProbe (id ch : nat) (s : sys) (len flags : Z) (r : wres)
+| EGetsockopt (id ch : nat) (level opt : Z) (r : pres)
 | ESetFlags (id ch : nat) (ok : bool)
 | EAttempt (id ch : nat) (s : sys) (len flags : Z) (r : wres)
 | EClose (id : nat)
@@ -157,7 +161,6 @@ Section Oracle.
   Definition drop_if (owned : option method) (id : nat) : list event :=
     match owned with Some _ => drop_events id | None => [] end.
 
-  Inductive pres := PRZero | PRWouldBlock | PROther.
   Definition pres_of (r : wres) : pres := match r with WOk => PRZero | WAgain => PRWouldBlock | _ => PROther end.
   Definition pat_matches (pr : pres) (p : ppat) : bool :=
     match p, pr with
@@ -166,6 +169,25 @@ Section Oracle.
     | PatMinus1Any, PRWouldBlock | PatMinus1Any, PROther => true
     | PatAny, _ => true
     | _, _ => false
+    end.
+
+  (** getsockopt(fd, SOL_SOCKET, SO_TYPE): 0 on sockets, ENOTSOCK on everything else, EBADF on
+      an invalid descriptor; nothing is queued.  Any other (level, option) is not modelled as
+      answering 0. *)
+  Definition sockopt_result (c : chan) (level opt : Z) : pres :=
+    if (level =? os_SOL_SOCKET) && (opt =? os_SO_TYPE) then
+      match c_kind c with KStream | KDgram => PRZero | _ => PROther end
+    else PROther.
+
+  (** the probe of register_raw, as extracted: result seen by the match, channels, event *)
+  Definition run_probe (p : probe) (clk : nat) (cs : list chan) (id ch : nat) : pres * list chan * event :=
+    match p with
+    | ProbeEmptySend len flags =>
+        let r := sys_result clk (getc cs ch) SysSend len flags in
+        (pres_of r, updc cs ch (apply_write r len), EProbe id ch SysSend len flags r)
+    | ProbeSockType level opt =>
+        let r := sockopt_result (getc cs ch) level opt in
+        (r, cs, EGetsockopt id ch level opt r)
     end.
 
   (** the body of register_raw after the probe: the operations of the chosen arm, then
@@ -219,13 +241,11 @@ Section Oracle.
     | r :: t, S n => r :: set_status t n s
     end.
 
-  Definition register (st : state) (generic : bool) (sig : Z) (ch : nat) (o : outcome) : state :=
+  Definition register (p : probe) (st : state) (generic : bool) (sig : Z) (ch : nat) (o : outcome) : state :=
     let id := length (regs st) in
-    let '(ps, plen, pflags) := rr_probe in
-    let r := sys_result (clock st) (getc (chans st) ch) ps plen pflags in
-    let cs1 := updc (chans st) ch (apply_write r plen) in
-    let arm := if existsb (pat_matches (pres_of r)) rr_send_pats then rr_then else rr_else in
-    let '(cs2, ev2, res) := interp (arm ++ rr_after) id ch o cs1 None (EProbe id ch ps plen pflags r :: evs st) in
+    let '(pr, cs1, pev) := run_probe p (clock st) (chans st) id ch in
+    let arm := if existsb (pat_matches pr) rr_send_pats then rr_then else rr_else in
+    let '(cs2, ev2, res) := interp (arm ++ rr_after) id ch o cs1 None (pev :: evs st) in
     let ev3 := EOutcome id (match res with Some _ => true | None => false end) :: ev2 in
     let ev4 := match generic, register_conv with
                | true, AsRaw => EClose id :: ev3     (* the argument still owns the descriptor and closes it *)
@@ -247,15 +267,15 @@ Section Oracle.
     | None => st
     end.
 
-  Definition step (st : state) (o : op) : state :=
+  Definition step (p : probe) (st : state) (o : op) : state :=
     match o with
-    | ORegister g sig ch oc => register st g sig ch oc
+    | ORegister g sig ch oc => register p st g sig ch oc
     | ODeliver sig => fst (deliver st sig)
     | ODrain ch n => mkState (updc (chans st) ch (drain n)) (regs st) (clock st) (evs st)
     | OUnregister id => unregister st id
     end.
 
-  Definition run_from (st : state) (h : list op) : state := fold_left step h st.
+  Definition run_from (p : probe) (st : state) (h : list op) : state := fold_left (step p) h st.
 End Oracle.
 
 (** initial world: channels as the test set them up (kind, blocking mode, what is already
@@ -266,8 +286,9 @@ Record chan_spec := mkSpec {
 Definition init_chan (s : chan_spec) : chan :=
   mkChan (s_kind s) (s_nonblock s) (map UForeign (s_pre s)) 0 (s_fcntl_ok s) (s_other_full s) (s_other_err s) (s_cap s).
 Definition init (w : list chan_spec) : state := mkState (map init_chan w) [] 0 [].
+(** the code that exists: the probe is the extracted [rr_probe] *)
 Definition run (accept : nat -> chan -> bool) (w : list chan_spec) (h : list op) : state :=
-  run_from accept (init w) h.
+  run_from accept rr_probe (init w) h.
 
 (** capacity oracle used by the correspondence: a queue of capacity [c_cap] units *)
 Definition accept_cap (clk : nat) (c : chan) : bool := (length (c_q c) <? c_cap c)%nat.
